@@ -5,7 +5,7 @@ Model of the sans-io UDP core `sozu_lib::protocol::udp::{manager,flow,proxy_prot
 branch for branch.
 
 * `Instant`s are `Nat` (milliseconds after a base instant), `Duration`s are `Nat` ms.
-* `HashMap<FlowKey, FlowId>` is a `KMap Addr Nat` (only `get`/`insert`/`remove`
+* `HashMap<FlowKey, FlowId>` is a `KMap FKey Nat` (only `get`/`insert`/`remove`
   are used by the code, so iteration order is never observable).
 * `slab::Slab<UdpFlow>` is `slots` (index ↦ flow), `nslots` (`entries.len()`),
   `free` (the LIFO vacant list: head = `next`) and `len`; `iter()` visits the
@@ -28,6 +28,13 @@ structure Addr where
   v6 : Bool
   ip : List Nat
   port : Nat
+deriving DecidableEq, Repr
+
+/-- `FlowKey`: the source address (port normalised to 0 for source-IP affinity)
+    plus the `ip_only` flag that keeps the two affinity modes' keys apart -/
+structure FKey where
+  src : Addr
+  ipOnly : Bool
 deriving DecidableEq, Repr
 
 /-- `ClusterConfig` -/
@@ -88,7 +95,7 @@ deriving DecidableEq, Repr
 
 /-- `UdpManager` -/
 structure State where
-  table : KMap Addr Nat
+  table : KMap FKey Nat
   slots : KMap Nat Flow
   nslots : Nat
   free : List Nat
@@ -123,8 +130,8 @@ def State.new (cluster : Cfg) (maxFlows maxRx : Nat) : State :=
     cluster, draining := false, outs := [], armed := none }
 
 /-- `FlowKey::from_src` -/
-def flowKey (a : Addr) (withPort : Bool) : Addr :=
-  if withPort then a else { a with port := 0 }
+def flowKey (a : Addr) (withPort : Bool) : FKey :=
+  if withPort then { src := a, ipOnly := false } else { src := { a with port := 0 }, ipOnly := true }
 
 /-- what `affinity_hash` feeds the hasher -/
 def affKey (a : Addr) (withPort : Bool) : AKey :=
@@ -231,7 +238,7 @@ def reschedule (s : State) : State :=
   else s
 
 /-- the table after `close_flow`'s conditional removal -/
-def closeTable (s : State) (id : Nat) (f : Flow) : KMap Addr Nat :=
+def closeTable (s : State) (id : Nat) (f : Flow) : KMap FKey Nat :=
   let key := flowKey f.client s.cluster.withPort
   if KMap.get? s.table key = some id then KMap.erase s.table key
   else
